@@ -216,7 +216,7 @@ func main() {
 			// a trusted function may still carry ghost assertions (before/after a call, loop exit): its body is then
 			// executed for those alone, every other obligation being assumed
 			for _, c := range blk.Clauses {
-				if c.Kind == "before" || c.Kind == "after" || c.Kind == "loop-exit" {
+				if c.Kind == "before" || c.Kind == "after" || c.Kind == "loop-exit" || (c.Kind == "ensures" && c.Checked) {
 					ghostOnly = true
 				}
 			}
